@@ -46,9 +46,9 @@ def _norm_ws(s):
 def _impl_matches(header, want):
     """header: masked text like 'impl<S: Database> StorageManager<S>' ; want: 'StorageManager' or 'Ord for NodeLabel'."""
     h = _norm_ws(header)
+    h = re.sub(r"#\[[^\]]*\]", " ", h).strip()   # leading attributes
     if not re.match(r"(unsafe\s+)?impl\b", h):
         return False
-    # strip leading attrs? header_of starts after previous item so attrs may be included
     h = h[h.index("impl"):]
     # remove generics right after impl
     rest = h[4:].lstrip()
@@ -75,6 +75,8 @@ def _impl_matches(header, want):
         if " for " not in rest:
             return False
         t, ty = [x.strip() for x in rest.split(" for ", 1)]
+        if "<" in wt:
+            return _norm_ws(t).replace(" ", "") == _norm_ws(wt).replace(" ", "") and base(ty) == base(wty)
         return base(t) == base(wt) and base(ty) == base(wty)
     if " for " in rest:
         return False
